@@ -26,7 +26,7 @@ def describe(c):
 
 
 def run(ctx):
-    n = 120 if ctx.quick else 1600
+    n = 120 if ctx.quick else 1000
     d = ctx.harness("fsm", args=["-n", n, "-focus", "C23"] + ARGS)
     if d is None:
         return
@@ -36,7 +36,7 @@ def run(ctx):
 
 
 def search(ctx):
-    d = ctx.harness("fsm", outdir=ctx.work + "/search", args=["-n", 800, "-focus", "C23"] + ARGS)
+    d = ctx.harness("fsm", outdir=ctx.work + "/search", args=["-n", 300, "-focus", "C23"] + ARGS)
     if d is None:
         return
     res = vlib.eval_cases(d)
